@@ -77,8 +77,8 @@ def formulas(thorough):
 class Env:
     """PATH = the stub directory only; a private temporary directory; restored on exit"""
 
-    def __init__(self):
-        self.td = tempfile.TemporaryDirectory(prefix='verif_c20_')
+    def __init__(self, base=None):
+        self.td = tempfile.TemporaryDirectory(prefix='verif_c20_', dir=base)
         self.bench = xs.StubBench(os.path.join(self.td.name, 'stubs'))
         self.tmp = os.path.join(self.td.name, 'tmp')
         os.makedirs(self.tmp)
@@ -232,7 +232,7 @@ def eval_solve(desc, conv, shape, how, verbose=0):
                 continue
             # satisfiable: an assignment, ordered by variable, reporting the solver's model, satisfying F
             if w is None:
-                problems.append((where + (':empty-witness' if n == 0 else ''), 'solve() = (True, None): no assignment returned (formula with {} variables)'.format(n)))
+                problems.append((('solve:{}:empty-witness'.format(conv) if n == 0 else where), 'solve() = (True, None): no assignment returned (formula with {} variables)'.format(n)))
                 continue
             try:
                 wl = list(w.items()) if isinstance(w, dict) else list(w)
@@ -269,6 +269,33 @@ def replay_solve(desc, conv, shape, how, verbose=0):
     return not eval_solve(desc, conv, shape, how, verbose)
 
 
+_POOL_BASE = None
+
+
+def _worker_init(base):
+    """each worker process owns one environment (stub directory, PATH, temp dir) below `base`"""
+    global _ENV
+    core.import_repo()
+    e = Env(base)
+    e.__enter__()
+    _ENV = e
+
+
+def _worker(task):
+    fn, args = task
+    return {'solve': eval_solve, 'names': eval_names, 'first': eval_first_wins}[fn](**args)
+
+
+def _run_tasks(tasks):
+    """evaluate tasks in worker processes (each with a private environment); results in task order"""
+    import multiprocessing as mp
+    if _POOL_BASE is None:
+        return [_worker(t) for t in tasks]
+    nproc = min(12, os.cpu_count() or 2)
+    with mp.get_context('fork').Pool(nproc, initializer=_worker_init, initargs=(_POOL_BASE,)) as pool:
+        return pool.map(_worker, tasks, chunksize=4)
+
+
 def bounded_solve(ctx):
     thorough = ctx.tier == 'thorough'
     fs = formulas(thorough)
@@ -279,24 +306,24 @@ def bounded_solve(ctx):
                            ).format(len(fs), '/op/count' if thorough else '', sorted(xs.SHAPES_STDOUT), sorted(xs.SHAPES_FILEOUT))
     ctx.rule('C20: one case = (formula, convention, answer shape, way of naming the solver); both solve() and is_satisfiable() are called; '
              'the returned pair is compared with the log of the stub solver and with a truth table; non-trivial iff the formula has a clause or a variable')
+    tasks = []
     for desc in fs:
         for conv in CONVS:
             shapes = xs.SHAPES_FILEOUT if conv == 'filein_fileout' else xs.SHAPES_STDOUT
             for shape in shapes:
                 hows = hows_all if (thorough or shape in ('plain', 'split')) else ['name']
                 for how in hows:
-                    ctx.case(('solve', repr(desc), conv, shape, how), nontrivial=desc != {'kind': 'clauses', 'clauses': []})
-                    for aspect, what in eval_solve(desc, conv, shape, how):
-                        ctx.violation(aspect, '{} via {} ({}): {}'.format(desc, conv, how, what),
-                                      {'fn': 'checks.C20:replay_solve', 'args': dict(desc=desc, conv=conv, shape=shape, how=how)})
+                    tasks.append(('solve', dict(desc=desc, conv=conv, shape=shape, how=how)))
     # verbose output must not change the result
     for conv in CONVS:
         for verbose in (1, 2):
             desc = {'kind': 'clauses', 'clauses': [[1, 2], [-1], [-2, 3]]}
-            ctx.case(('verbose', conv, verbose))
-            for aspect, what in eval_solve(desc, conv, 'plain', 'name', verbose):
-                ctx.violation('verbose:' + aspect, '{} verbose={}: {}'.format(conv, verbose, what),
-                              {'fn': 'checks.C20:replay_solve', 'args': dict(desc=desc, conv=conv, shape='plain', how='name', verbose=verbose)})
+            tasks.append(('solve', dict(desc=desc, conv=conv, shape='plain', how='name', verbose=verbose)))
+    for (fn, args), problems in zip(tasks, _run_tasks(tasks)):
+        ctx.case(('solve', repr(sorted(args.items()))), nontrivial=args['desc'] != {'kind': 'clauses', 'clauses': []})
+        for aspect, what in problems:
+            ctx.violation(aspect, '{} via {} ({}, shape {}): {}'.format(args['desc'], args['conv'], args['how'], args['shape'], what),
+                          {'fn': 'checks.C20:replay_solve', 'args': args})
     ctx.sample({'formula': {'kind': 'clauses', 'clauses': [[1, -2]], 'numvar': 5}, 'convention': 'filein_stdout', 'shape': 'comments', 'how': 'sameas'})
     ctx.sample({'formula': {'kind': 'php', 'p': 3, 'h': 2}, 'convention': 'filein_fileout', 'shape': 'split', 'how': 'default'})
 
@@ -378,17 +405,18 @@ def bounded_dispatch(ctx):
     names = sorted(xs.REAL_CONVENTION)
     ctx.bounds['dispatch'] = ('every supported name with a documented-unambiguous convention ({}) installed alone; all subsets of {} '
                               'installed together with cmd None / empty / blank').format(names, ['lingeling', 'minisat', 'sat4j', 'cadical'] if thorough else ['lingeling', 'minisat', 'sat4j'])
+    tasks = []
     for name in names:
         for shape in (('split', 'plain', 'scrambled') if thorough else ('split',)):
-            ctx.case(('name', name, shape))
-            for aspect, what in eval_names(name, shape):
-                ctx.violation(aspect, what, {'fn': 'checks.C20:replay_names', 'args': dict(name=name, shape=shape)})
+            tasks.append(('names', dict(name=name, shape=shape)))
     pool = ['lingeling', 'minisat', 'sat4j'] + (['cadical', 'march'] if thorough else [])
     for r in range(len(pool) + 1):
         for sub in itertools.combinations(pool, r):
-            ctx.case(('installed', sub), nontrivial=True)
-            for aspect, what in eval_first_wins(list(sub)):
-                ctx.violation(aspect, what, {'fn': 'checks.C20:replay_first_wins', 'args': dict(installed=list(sub))})
+            tasks.append(('first', dict(installed=list(sub))))
+    for (fn, args), problems in zip(tasks, _run_tasks(tasks)):
+        ctx.case((fn, repr(sorted(args.items()))))
+        for aspect, what in problems:
+            ctx.violation(aspect, what, {'fn': 'checks.C20:replay_names' if fn == 'names' else 'checks.C20:replay_first_wins', 'args': args})
     ctx.sample({'installed': ['minisat', 'sat4j'], 'cmd': None, 'expected solver': 'minisat (first in supported_satsolvers())'})
 
 
@@ -493,10 +521,16 @@ def run(ctx):
     from checks import proofs
     proofs.run_group(ctx, 'C20')
     core.import_repo()
-    with environment():
-        bounded_solve(ctx)
-        bounded_dispatch(ctx)
-        bounded_errors(ctx)
+    global _POOL_BASE
+    with tempfile.TemporaryDirectory(prefix='verif_c20_root_') as root:
+        _POOL_BASE = root
+        try:
+            bounded_solve(ctx)
+            bounded_dispatch(ctx)
+        finally:
+            _POOL_BASE = None
+        with environment():
+            bounded_errors(ctx)
     ctx.assume('C20: the stub solvers of vlib/x_stubsolvers.py are correct solvers (their model is re-checked against the DIMACS they received, '
                'their verdict against a numpy truth table; a disagreement aborts the check with exit 3)')
     ctx.assume('C20: conventions of the real programs as listed in x_stubsolvers.REAL_CONVENTION; glucose excluded (documented both ways)')
